@@ -432,6 +432,76 @@ impl Gen {
     }
 }
 
+/// C04: bounded-exhaustive dial cases — every address list of length <= 3 over an 8-address alphabet
+/// (2 base addresses x {plain, /p2p/target, /p2p/other, /p2p-circuit}) x 4 conditions x
+/// {disconnected, connected, dialing} x {no listen address, first base address is a listen address}.
+/// Thorough tier enumerates all of them, quick tier a seeded sample.
+fn dial_enum(args: &Args, out: &mut Out) {
+    let ps = peers();
+    let base = base_addrs();
+    let mut alphabet: Vec<Multiaddr> = vec![];
+    for b in base.iter().take(2) {
+        alphabet.push(b.clone());
+        let mut x = b.clone();
+        x.push(Protocol::P2p(ps[1]));
+        alphabet.push(x);
+        let mut y = b.clone();
+        y.push(Protocol::P2p(ps[2]));
+        alphabet.push(y);
+        let mut z = b.clone();
+        z.push(Protocol::P2pCircuit);
+        alphabet.push(z);
+    }
+    let mut lists: Vec<Vec<Multiaddr>> = vec![vec![]];
+    let mut frontier: Vec<Vec<Multiaddr>> = vec![vec![]];
+    for _ in 0..3 {
+        let mut next = vec![];
+        for l in &frontier {
+            for a in &alphabet {
+                let mut m = l.clone();
+                m.push(a.clone());
+                next.push(m);
+            }
+        }
+        lists.extend(next.iter().cloned());
+        frontier = next;
+    }
+    let mut idx = 1_000_000u64;
+    let mut rng = Rng::for_case(args.seed, 999_983);
+    for l in &lists {
+        for cond in 0..4u8 {
+            for state in 0..3u8 {
+                for listen in 0..2u8 {
+                    idx += 1;
+                    if !args.thorough && !rng.chance(1, 40) {
+                        continue;
+                    }
+                    out.case(idx, &format!("dialenum nt=1 peers={}", peers_tok()));
+                    let mut r = Runner::new();
+                    if listen == 1 {
+                        r.step(&Op::NewAddr { a: base[0].clone() }, out);
+                    }
+                    if state >= 1 {
+                        // a pending dial to peer 1 (state 2 keeps it pending, state 1 resolves it)
+                        r.step(
+                            &Op::Dial { via_beh: false, cond: 0, peer: Some(1), addrs: vec![base[5].clone()], extend: false, beh_addrs: vec![], deny: false, refuse: vec![] },
+                            out,
+                        );
+                        if state == 1 {
+                            r.step(&Op::Resolve { k: 0, peer: 1, deny: false }, out);
+                        }
+                    }
+                    r.step(
+                        &Op::Dial { via_beh: false, cond, peer: Some(1), addrs: l.clone(), extend: false, beh_addrs: vec![], deny: false, refuse: vec![] },
+                        out,
+                    );
+                    out.end();
+                }
+            }
+        }
+    }
+}
+
 pub fn run(args: &Args, out: &mut Out) {
     if let Some(cases) = args.replay_cases() {
         for (i, (_, ops)) in cases.iter().enumerate() {
@@ -450,6 +520,9 @@ pub fn run(args: &Args, out: &mut Out) {
         return;
     }
     let g = Gen { addrs: base_addrs(), peers: peers() };
+    if args.prop == "C04" {
+        dial_enum(args, out);
+    }
     let n = args.n(1500, 15_000);
     for i in 0..n {
         let mut rng = Rng::for_case(args.seed, i);
